@@ -6,6 +6,7 @@ import (
 	log "github.com/sirupsen/logrus"
 	"math/rand/v2"
 	"net"
+	"runtime"
 	"sync"
 	"sync/atomic"
 )
@@ -54,8 +55,18 @@ func makeSwitchboard(sesh *Session) *switchboard {
 var errBrokenSwitchboard = errors.New("the switchboard is broken")
 
 func (sb *switchboard) addConn(conn net.Conn) {
-	connId := atomic.AddUint32(&sb.connsCount, 1) - 1
-	sb.conns.Store(connId, conn)
+	// the connection must be in the map before the count that makes its id eligible in pickRandConn
+	// is published: a sender that drew an id it could not find used to bring the whole session down
+	for {
+		connId := atomic.LoadUint32(&sb.connsCount)
+		if _, taken := sb.conns.LoadOrStore(connId, conn); taken {
+			// another addConn owns this id and is about to publish it
+			runtime.Gosched()
+			continue
+		}
+		atomic.AddUint32(&sb.connsCount, 1)
+		break
+	}
 	go sb.deplex(conn)
 }
 
